@@ -1,11 +1,17 @@
 // C15 implementation driver, all inside a fresh mkdtemp directory under /tmp (removed at exit).
-//   D <alloc 1|0> <setup> <path>    zix_create_directories; setup = '-' | comma list of d:<rel> / f:<rel>
-//                                    or l:<rel>=<target> (symbolic link; then only the observable part is printed)
+//   D <alloc 1|0> <setup> <path>    zix_create_directories; setup = '-' | comma list of d:<rel> (directory),
+//                                    f:<rel> (empty regular file), p:<rel> (fifo), l:<rel>=<target> (symbolic link;
+//                                    a target starting with '@' is absolute: the case directory + the rest)
 //                                    (relative to the case directory <base>/w, which is the cwd);
 //                                    path: '~' = empty, a leading '@' = absolute path of the case directory
+//   Q <setup> <path>               zix_file_type, zix_symlink_type, zix_file_size on any path over such a setup,
+//                                    next to the direct stat/lstat answers (mode or E<errno>)
 //   E <a> <b> <rel D|P|H|L> <al1> <al2> <errno0> <script>   zix_file_equals; a, b = bytes | M (missing)
 //   T <kind R|D|LR|LD|LX|F|S|C|M> <size>   zix_file_type, zix_symlink_type, zix_file_size, zix_canonical_path
-//   R <names>                      zix_dir_for_each over a directory with these entries ('/' suffix: subdirectory)
+//   R <names> / RL <names>         zix_dir_for_each over a real directory with these entries ('/' suffix:
+//                                    subdirectory; %XX escapes), RL: through a symbolic link to it
+//   V <ok|fail> <entries>          zix_dir_for_each with scripted opendir/readdir (link-time wrappers): readdir
+//                                    returns exactly these names in this order ("." and ".." anywhere, %XX escapes)
 #include "vcommon.h"
 #include "wrap_io_c14.h"
 
@@ -43,6 +49,48 @@ type_name(const ZixFileType t)
 
 static char base[64];
 static char casedir[96];
+
+// %XX escapes in case tokens (names with spaces, commas, ...)
+static void
+unescape_pct(char* s)
+{
+  char* o = s;
+  for (; *s; ++s) {
+    if (*s == '%' && vhexval(s[1]) >= 0 && vhexval(s[2]) >= 0) {
+      *o++ = (char)(vhexval(s[1]) * 16 + vhexval(s[2]));
+      s += 2;
+    } else {
+      *o++ = *s;
+    }
+  }
+  *o = 0;
+}
+
+static void
+put_pct(const char* s)
+{
+  for (; *s; ++s) {
+    const unsigned char c = (unsigned char)*s;
+    if (c <= 32 || c >= 127 || c == '%' || c == ',' || c == ':' || c == '|') {
+      printf("%%%02X", c);
+    } else {
+      putchar(c);
+    }
+  }
+}
+
+static const char*
+mode_type_name(const mode_t m)
+{
+  return S_ISREG(m)    ? "REGULAR"
+         : S_ISDIR(m)  ? "DIRECTORY"
+         : S_ISLNK(m)  ? "SYMLINK"
+         : S_ISBLK(m)  ? "BLOCK"
+         : S_ISCHR(m)  ? "CHARACTER"
+         : S_ISFIFO(m) ? "FIFO"
+         : S_ISSOCK(m) ? "SOCKET"
+                       : "UNKNOWN";
+}
 
 // ---- allocator: plain malloc scripted (D cases), aligned scripted + logged (E cases)
 typedef struct {
@@ -213,9 +261,106 @@ stat_hook(const char* path, int ret, const struct stat* sb)
   char np[PATH_MAX + 32];
   char buf[PATH_MAX + 64];
   norm_path(np, sizeof(np), path);
-  const char* t = ret ? "NONE" : S_ISDIR(sb->st_mode) ? "DIRECTORY" : S_ISREG(sb->st_mode) ? "REGULAR" : "OTHER";
+  const char* t = ret ? "NONE" : mode_type_name(sb->st_mode);
   snprintf(buf, sizeof(buf), "stat:%s:%s", np[0] ? np : "~", t);
   vw_logs(buf);
+}
+
+// lstat is not called by zix_create_directories; when a change makes it so, the trace shows it
+int __real_lstat(const char* path, struct stat* sb);
+int __real_lstat64(const char* path, struct stat* sb);
+static int
+do_lstat(int lfs, const char* path, struct stat* sb)
+{
+  const int r = lfs ? __real_lstat64(path, sb) : __real_lstat(path, sb);
+  if (vw_active) {
+    const int e = errno;
+    char      np[PATH_MAX + 32];
+    char      buf[PATH_MAX + 64];
+    norm_path(np, sizeof(np), path);
+    snprintf(buf, sizeof(buf), "lstat:%s:%s", np[0] ? np : "~", r ? "NONE" : mode_type_name(sb->st_mode));
+    vw_logs(buf);
+    errno = e;
+  }
+  return r;
+}
+int __wrap_lstat(const char* path, struct stat* sb) { return do_lstat(0, path, sb); }
+int __wrap_lstat64(const char* path, struct stat* sb) { return do_lstat(1, path, sb); }
+
+// ---- scripted directory streams (V cases): opendir on a real directory (a real descriptor), readdir returns
+// the scripted names
+static int    ds_active;         // 0: pass through; 1: scripted
+static int    ds_fail;           // opendir fails
+static char** ds_names;
+static size_t ds_n, ds_pos;
+static char   ds_log[VW_LOG_SIZE];
+static size_t ds_log_len;
+
+static void
+ds_logf(const char* what, const char* arg)
+{
+  if (ds_log_len + strlen(what) + 3 * strlen(arg) + 4 >= sizeof(ds_log)) {
+    return;
+  }
+  if (ds_log_len && what[0] != ':') { // ':' continues the current entry
+    ds_log[ds_log_len++] = ' ';
+  }
+  ds_log_len += (size_t)sprintf(ds_log + ds_log_len, "%s", what);
+  for (; *arg; ++arg) {
+    const unsigned char c = (unsigned char)*arg;
+    if (c <= 32 || c >= 127 || c == '%' || c == ',' || c == ':' || c == '|') {
+      ds_log_len += (size_t)sprintf(ds_log + ds_log_len, "%%%02X", c);
+    } else {
+      ds_log[ds_log_len++] = (char)c;
+    }
+  }
+  ds_log[ds_log_len] = 0;
+}
+
+DIR*           __real_opendir(const char* path);
+struct dirent* __real_readdir(DIR* d);
+struct dirent* __real_readdir64(DIR* d);
+int            __real_closedir(DIR* d);
+
+DIR*
+__wrap_opendir(const char* path)
+{
+  if (!ds_active) {
+    return __real_opendir(path);
+  }
+  if (ds_fail) {
+    ds_logf("opendir-fail:", path);
+    errno = ENOENT;
+    return NULL;
+  }
+  ds_logf("opendir:", path);
+  return __real_opendir(path);
+}
+
+static struct dirent*
+ds_readdir(void)
+{
+  static struct dirent ent;
+  if (ds_pos >= ds_n) {
+    ds_logf("readdir-null", "");
+    return NULL;
+  }
+  memset(&ent, 0, sizeof(ent));
+  ent.d_ino = 1000 + ds_pos;
+  snprintf(ent.d_name, sizeof(ent.d_name), "%s", ds_names[ds_pos++]);
+  ds_logf("readdir:", ent.d_name);
+  return &ent;
+}
+struct dirent* __wrap_readdir(DIR* d) { return ds_active ? ds_readdir() : __real_readdir(d); }
+struct dirent* __wrap_readdir64(DIR* d) { return ds_active ? ds_readdir() : __real_readdir64(d); }
+
+int
+__wrap_closedir(DIR* d)
+{
+  if (ds_active) {
+    ds_logf("closedir", "");
+  }
+  return __real_closedir(d);
 }
 
 int __real_mkdir(const char* path, mode_t mode);
@@ -251,8 +396,17 @@ tree_cb(const char* p, const struct stat* sb, int flag, struct FTW* ftw)
     tree_cap   = tree_cap ? tree_cap * 2 : 64;
     tree_items = (char**)realloc(tree_items, tree_cap * sizeof(char*));
   }
-  char* s = (char*)malloc(strlen(p) + 3);
-  sprintf(s, "%s%s", p + bl + 1, S_ISDIR(sb->st_mode) ? "/" : "");
+  char* s = (char*)malloc(strlen(p) + PATH_MAX + 40);
+  if (S_ISLNK(sb->st_mode)) {
+    char          target[PATH_MAX];
+    char          nt[PATH_MAX + 32];
+    const ssize_t n = readlink(p, target, sizeof(target) - 1);
+    target[n > 0 ? n : 0] = 0;
+    norm_path(nt, sizeof(nt), target);
+    sprintf(s, "%s->%s", p + bl + 1, nt);
+  } else {
+    sprintf(s, "%s%s", p + bl + 1, S_ISDIR(sb->st_mode) ? "/" : S_ISFIFO(sb->st_mode) ? "|" : "");
+  }
   tree_items[tree_n++] = s;
   return 0;
 }
@@ -296,6 +450,64 @@ mk_parents_and(const char* rel, int is_dir)
   return is_dir ? mkdir(p, 0700) : write_file(p, (const unsigned char*)"", 0);
 }
 
+// d:<rel> f:<rel> p:<rel> l:<rel>=<target>, comma separated, parents before children; '-' = nothing
+static int
+apply_setup(char* setup)
+{
+  int bad = 0;
+  if (!strcmp(setup, "-")) {
+    return 0;
+  }
+  char* save = NULL;
+  for (char* t = strtok_r(setup, ",", &save); t; t = strtok_r(NULL, ",", &save)) {
+    char p[256];
+    if (t[0] == 'l') {
+      char* eq = strchr(t, '=');
+      char  target[PATH_MAX];
+      if (!eq) {
+        bad = 1;
+        continue;
+      }
+      *eq = 0;
+      snprintf(p, sizeof(p), "%s/%s", casedir, t + 2);
+      if (eq[1] == '@') {
+        snprintf(target, sizeof(target), "%s%s", casedir, eq + 2);
+      } else {
+        snprintf(target, sizeof(target), "%s", eq + 1);
+      }
+      bad |= symlink(target, p);
+    } else if (t[0] == 'p') {
+      snprintf(p, sizeof(p), "%s/%s", casedir, t + 2);
+      bad |= mkfifo(p, 0600);
+    } else {
+      bad |= mk_parents_and(t + 2, t[0] == 'd');
+    }
+  }
+  return bad;
+}
+
+static void
+case_path(char* path, size_t cap, const char* tok)
+{
+  if (!strcmp(tok, "~")) {
+    path[0] = 0;
+  } else if (tok[0] == '@') {
+    snprintf(path, cap, "%s%s", casedir, tok + 1);
+  } else {
+    snprintf(path, cap, "%s", tok);
+  }
+}
+
+static void
+print_stat_answer(const char* label, int rc, int err, const struct stat* sb)
+{
+  if (rc) {
+    printf("%s=E%d", label, err);
+  } else {
+    printf("%s=%o", label, (unsigned)(sb->st_mode & S_IFMT));
+  }
+}
+
 static int
 parse_script(char* s)
 {
@@ -317,11 +529,17 @@ parse_script(char* s)
 // dir_for_each callback
 static char** seen;
 static size_t seen_n, seen_cap;
+static int visit_logs; // V cases: every call with its arguments, in order
 static void
 visit(const char* path, const char* name, void* data)
 {
-  (void)path;
-  (void)data;
+  if (visit_logs) {
+    char buf[64];
+    ds_logf("cb:", path);
+    ds_logf(":", name);
+    snprintf(buf, sizeof(buf), "%ld", (long)(intptr_t)data);
+    ds_logf(":", buf);
+  }
   if (seen_n == seen_cap) {
     seen_cap = seen_cap ? seen_cap * 2 : 64;
     seen     = (char**)realloc(seen, seen_cap * sizeof(char*));
@@ -360,35 +578,9 @@ main(void)
     track.al_fail[0] = track.al_fail[1] = track.al_errno[0] = track.al_errno[1] = 0;
 
     if (n == 4 && !strcmp(tok[0], "D")) {
-      int bad = 0;
-      int has_links = 0;
-      if (strcmp(tok[2], "-")) {
-        char* save = NULL;
-        for (char* t = strtok_r(tok[2], ",", &save); t; t = strtok_r(NULL, ",", &save)) {
-          if (t[0] == 'l') { // l:<rel>=<target>: a symbolic link (not part of the proved abstract file system)
-            char* eq = strchr(t, '=');
-            char  p[256];
-            if (!eq) {
-              bad = 1;
-              continue;
-            }
-            *eq = 0;
-            snprintf(p, sizeof(p), "%s/%s", casedir, t + 2);
-            bad |= symlink(eq + 1, p);
-            has_links = 1;
-          } else {
-            bad |= mk_parents_and(t + 2, t[0] == 'd');
-          }
-        }
-      }
-      char path[PATH_MAX];
-      if (!strcmp(tok[3], "~")) {
-        path[0] = 0;
-      } else if (tok[3][0] == '@') {
-        snprintf(path, sizeof(path), "%s%s", casedir, tok[3] + 1);
-      } else {
-        snprintf(path, sizeof(path), "%s", tok[3]);
-      }
+      const int bad = apply_setup(tok[2]);
+      char      path[PATH_MAX];
+      case_path(path, sizeof(path), tok[3]);
       if (bad) {
         puts("bad-case");
         continue;
@@ -408,10 +600,43 @@ main(void)
       const ZixStatus again = zix_create_directories(&track.base, path);
       char*           tree2 = tree_listing();
       printf("st= %s isdir= %d again= %s same= %d fds= %d leak= %d || %s tree=%s\n", status_name(st), isdir,
-             status_name(again), !strcmp(tree1, tree2), fds1 - fds0, leak,
-             has_links ? "symlinks" : vw_log_len ? vw_log : "-", has_links ? "-" : tree1);
+             status_name(again), !strcmp(tree1, tree2), fds1 - fds0, leak, vw_log_len ? vw_log : "-", tree1);
       free(tree1);
       free(tree2);
+    } else if (n == 3 && !strcmp(tok[0], "Q")) {
+      const int bad = apply_setup(tok[1]);
+      char      path[PATH_MAX];
+      case_path(path, sizeof(path), tok[2]);
+      if (bad) {
+        puts("bad-case");
+        continue;
+      }
+      int               leaks = 0;
+      const int         f0    = count_fds();
+      const ZixFileType t1    = zix_file_type(path);
+      leaks += abs(count_fds() - f0);
+      const ZixFileType t2 = zix_symlink_type(path);
+      leaks += abs(count_fds() - f0);
+      const ZixFileOffset sz = zix_file_size(path);
+      leaks += abs(count_fds() - f0);
+      struct stat sb, lb;
+      errno         = 0;
+      const int rs  = stat(path, &sb);
+      const int es  = errno;
+      errno         = 0;
+      const int rl  = lstat(path, &lb);
+      const int el  = errno;
+      printf("type= %s ltype= %s size= ", type_name(t1), type_name(t2));
+      if (rs || S_ISREG(sb.st_mode)) {
+        printf("%lld", (long long)sz);
+      } else {
+        fputs(sz == sb.st_size ? "eqstat" : "DIFFERS", stdout);
+      }
+      printf(" fds= %d leak= %d || ", leaks, track.n_alloc - track.n_free);
+      print_stat_answer("stat", rs, es, &sb);
+      putchar(' ');
+      print_stat_answer("lstat", rl, el, &lb);
+      putchar('\n');
     } else if (n == 8 && !strcmp(tok[0], "E")) {
       unsigned char *ab = NULL, *bb = NULL;
       const int      a_missing = !strcmp(tok[1], "M"), b_missing = !strcmp(tok[2], "M");
@@ -520,12 +745,17 @@ main(void)
       if (sock >= 0) {
         close(sock);
       }
-    } else if (n == 2 && !strcmp(tok[0], "R")) {
-      int bad = mkdir("d", 0700);
+    } else if (n == 2 && (!strcmp(tok[0], "R") || !strcmp(tok[0], "RL"))) {
+      const int via_link = !strcmp(tok[0], "RL");
+      int       bad      = mkdir("d", 0700);
+      if (via_link) {
+        bad |= symlink("d", "ld");
+      }
       if (strcmp(tok[1], "-")) {
         char* save = NULL;
         for (char* t = strtok_r(tok[1], ",", &save); t; t = strtok_r(NULL, ",", &save)) {
-          char         p[300];
+          char p[600];
+          unescape_pct(t);
           const size_t l = strlen(t);
           if (l && t[l - 1] == '/') {
             snprintf(p, sizeof(p), "d/%.*s", (int)(l - 1), t);
@@ -542,7 +772,7 @@ main(void)
       }
       seen_n         = 0;
       const int fds0 = count_fds();
-      zix_dir_for_each("d", NULL, visit);
+      zix_dir_for_each(via_link ? "ld" : "d", NULL, visit);
       const int fds1 = count_fds();
       zix_dir_for_each("missing", NULL, visit); // a missing directory: no visit, no descriptor
       const int fds2 = count_fds();
@@ -572,10 +802,51 @@ main(void)
       printf("visited= %zu entries= %zu missing= %zu dup= %zu dots= %zu fds= %d ||", seen_n, dn, missing, dup, dots,
              abs(fds1 - fds0) + abs(fds2 - fds1));
       for (size_t i = 0; i < seen_n; ++i) {
-        printf(" %s", seen[i]);
+        putchar(' ');
+        put_pct(seen[i]);
         free(seen[i]);
       }
       puts(seen_n ? "" : " -");
+    } else if (n == 3 && !strcmp(tok[0], "V")) {
+      int bad = mkdir("d", 0700);
+      ds_fail = !strcmp(tok[1], "fail");
+      ds_n = ds_pos = 0;
+      ds_log_len    = 0;
+      ds_log[0]     = 0;
+      char*  names[512];
+      if (strcmp(tok[2], "-")) {
+        char* save = NULL;
+        for (char* t = strtok_r(tok[2], ",", &save); t && ds_n < 512; t = strtok_r(NULL, ",", &save)) {
+          unescape_pct(t);
+          names[ds_n++] = t;
+        }
+      }
+      ds_names = names;
+      if (bad) {
+        puts("bad-case");
+        continue;
+      }
+      seen_n         = 0;
+      visit_logs     = 1;
+      const int fds0 = count_fds();
+      ds_active      = 1;
+      zix_dir_for_each("d", (void*)(intptr_t)7, visit);
+      ds_active      = 0;
+      const int fds1 = count_fds();
+      visit_logs     = 0;
+      size_t dots    = 0;
+      for (size_t i = 0; i < seen_n; ++i) {
+        dots += !strcmp(seen[i], ".") || !strcmp(seen[i], "..");
+      }
+      printf("visited= %zu dots= %zu fds= %d names= ", seen_n, dots, fds1 - fds0);
+      for (size_t i = 0; i < seen_n; ++i) {
+        if (i) {
+          putchar(',');
+        }
+        put_pct(seen[i]);
+        free(seen[i]);
+      }
+      printf("%s || %s\n", seen_n ? "" : "-", ds_log_len ? ds_log : "-");
     } else {
       puts("?");
     }
